@@ -7,6 +7,7 @@ import (
 	"go/token"
 	"go/types"
 	"math"
+	"strings"
 
 	"golang.org/x/tools/go/ssa"
 )
@@ -478,7 +479,10 @@ func (r *FnRun) mapKeyOf(st *State, k Val, kt types.Type) *Term {
 	case IfaceV:
 		return tb.App("ifacekey", BV64, x.Tag, x.Data)
 	case SliceV:
-		// strings: key identity is content identity
+		// strings: key identity is content identity; constant strings use their canonical content
+		if x.Base.Op == "var" && strings.HasPrefix(x.Base.Name, "strconst_") {
+			return tb.App("strkey", BV64, tb.App("strcontent_"+strings.TrimPrefix(x.Base.Name, "strconst_"), ByteAr), x.Off, x.Len)
+		}
 		return tb.App("strkey", BV64, r.sliceContent(st, x), x.Off, x.Len)
 	case PtrV:
 		return r.e.ptrNum(x)
